@@ -458,6 +458,12 @@ void PCAScorePredictor(matrix *mx, PCAMODEL *model, size_t npc, matrix *pscores)
     /* p'*p = Sum(p[i]^2) */
     mod_p = DVectorDVectorDotProd(p, p);
 
+    /* a null component (model fitted beyond the rank of its data) has a null
+     * loading: its scores are 0, not 0/0
+     */
+    if(mod_p == 0.f)
+      mod_p = 1.f;
+
     /*t_new->data[i] = t_new->data[i]/mod_p;*/
     for(j = 0; j < t->size; j++){
       t->data[j] /= mod_p;
